@@ -231,7 +231,20 @@ func c02WholeStreams(c *hx.Ctx) {
 		}
 		for k := 0; k < 2; k++ {
 			m := append([]byte{}, enc...)
-			switch c.R.Intn(6) {
+			switch c.R.Intn(7) {
+			case 6: // a second frame header (SV1 rejects it since 7825a71; jpeg/lossless overwrites its fields)
+				k := bytes.Index(m, []byte{0xFF, 0xC3})
+				if k > 0 && k+4 <= len(m) {
+					l := 2 + int(m[k+2])<<8 + int(m[k+3])
+					if k+l <= len(m) {
+						seg := append([]byte{}, m[k:k+l]...)
+						if c.R.Bool() && len(seg) > 9 { // a different geometry in the second header
+							seg[8] ^= 1
+						}
+						m = append(append(append([]byte{}, m[:k+l]...), seg...), m[k+l:]...)
+						c.Count("stream-dec:second-sof3")
+					}
+				}
 			case 0:
 				m = m[:c.R.Intn(len(m))]
 			case 1:
